@@ -182,6 +182,9 @@ func discharge(file string, quickSecs, fullSecs int) (verdict, solver, output st
 	return best.v, best.s, best.o, tried
 }
 
+// solverSlots bounds the number of solver processes across all functions.
+var solverSlots = make(chan struct{}, 16)
+
 // solveAll discharges the obligations in parallel.
 func solveAll(g *Gen, obs []*Oblig, dir string, workers, quickSecs, fullSecs int) []*Result {
 	os.MkdirAll(dir, 0o755)
@@ -197,6 +200,8 @@ func solveAll(g *Gen, obs []*Oblig, dir string, workers, quickSecs, fullSecs int
 		go func() {
 			defer wg.Done()
 			defer func() { <-sem }()
+			solverSlots <- struct{}{}
+			defer func() { <-solverSlots }()
 			file := filepath.Join(dir, sanitize(o.Name)+".smt2")
 			os.WriteFile(file, []byte(obligQuery(pre, body, o, "")), 0o644)
 			t0 := time.Now()
